@@ -607,12 +607,22 @@ def judge_c10(ops, rep, ctx):
     """both REAL tables after every block of a connection (plus everything C01 checks)"""
     F = judge_endpoints(ops, rep, ctx, {'c10'})
     last_enc = {}
+    app_sized = set()
     for i, (op, r) in enumerate(zip(ops, rep)):
         t = strip_ann(op)
         head, st = split_reply(r)
+        if t[0] == 'dsize':
+            # the application assigned the DECODER's table size itself (no update on the wire): outside the histories C10
+            # quantifies over (encoder table-size changes); the two maxima then differ by the application's own doing
+            app_sized.add(t[1])
         if t[0] in ('eenc', 'eapi') and head.startswith('ok'):
             last_enc[t[1]] = TableDump(st)
-        elif t[0] == 'pipe' and head.startswith('ok') and t[3] in last_enc:
+        elif t[0] in ('eev', 'eadd', 'esize', 'ecopy'):
+            # the size was assigned while the block was being produced (or fields were added outside encode, or the
+            # encoder is a fresh copy): an update may be pending, and until the next block signals it the decoder's table
+            # is the encoder's only modulo that update -- the endpoint judge follows this case; no strict comparison here
+            last_enc.pop(t[1], None)
+        elif t[0] == 'pipe' and head.startswith('ok') and t[3] in last_enc and t[1] not in app_sized:
             te, tdd = last_enc[t[3]], TableDump(st)
             if te.ok and tdd.ok and (te.entries != tdd.entries or te.max != tdd.max):
                 F.append(Failure(i, 'lockstep', 'after the block: encoder table (max %d) %s, decoder table (max %d) %s' % (
